@@ -4,7 +4,7 @@ CONSTANTS Widths = {} MaxH = 1 MaxOwn = 1 LimbDom = {0} IdWidths = {} StreamWidt
   Transports = {"stream", "dgram"} ConnWidths = {1} IdCand = {1, 2, 3} IdLimit = 3
   MaxReq = 3 MaxPlain = 0 MaxStray = 1
   BActs = {"reply"} BHrets <- CHretsFail SyncMax = 0
-  MaxBReq = 0 MaxBPlain = 0 CRets <- CRetsZero MaxChain = 1
+  MaxBReq = 0 MaxBPlain = 0 CRets <- CRetsZero MaxChain = 0
 VIEW XView
 INVARIANTS XTypeOK Distinct XRefines AtMostOnce IdsFit HeaderOK TypeOK
 PROPERTIES RightWaiter EndToEnd ReserveTiers Recycle NothingLost StreamOnce Final
